@@ -137,8 +137,9 @@ static std::string gen_tunnel(uint64_t seed, uint64_t idx, bool thorough) {
     uint64_t maxdelay = 5000000;
     uint64_t tend = t + 60000000ULL + 2 * maxdelay + 65000000ULL;
     o.line(strf("plan v1 engine=net prop=C19 seed=0x%llx idx=%llu", (unsigned long long)seed, (unsigned long long)idx));
-    o.line(strf("cfg scen=tunnel udp=%d fd=%d tscf=%d count=%d o0=%d ethpad=%d sched=%s lat=%llu:%llu cost=%llu:%llu qcap=%zu tend=%llu rseed=0x%llx skew0=%lld skew1=%lld",
-                udp, fd, tscf, count, (int)r.chance(0.3), (int)(!udp && r.chance(0.4)), sched_str(r).c_str(), (unsigned long long)lat_lo, (unsigned long long)lat_hi,
+    double read0 = (faults && r.chance(0.3)) ? 0.02 + 0.02 * r.below(10) : 0;
+    o.line(strf("cfg scen=tunnel udp=%d fd=%d tscf=%d count=%d o0=%d ethpad=%d read0=%.2f sched=%s lat=%llu:%llu cost=%llu:%llu qcap=%zu tend=%llu rseed=0x%llx skew0=%lld skew1=%lld",
+                udp, fd, tscf, count, (int)r.chance(0.3), (int)(!udp && r.chance(0.4)), read0, sched_str(r).c_str(), (unsigned long long)lat_lo, (unsigned long long)lat_hi,
                 (unsigned long long)r.range(50, 500), (unsigned long long)r.range(500, 20000), qcap, (unsigned long long)tend,
                 (unsigned long long)r.next(), (long long)r.range(0, 2000000) - 1000000, (long long)r.range(0, 2000000) - 1000000));
     for (auto &f : frames) o.line(f);
